@@ -26,6 +26,7 @@ from exabgp.configuration.static.mpls import route_distinguisher
 
 __all__ = ['ParseFlowRoute', 'ParseFlowMatch', 'ParseFlowThen', 'ParseFlowScope']
 
+from exabgp.bgp.message import Notify
 from exabgp.bgp.message.update.nlri.flow import Flow
 from exabgp.configuration.flow.parser import flow
 from exabgp.configuration.flow.parser import next_hop
@@ -117,6 +118,12 @@ class ParseFlowRoute(Section):
             new_nlri._rules_cache = old_nlri._rules_cache
             new_nlri._packed_stale = True
             route.nlri = new_nlri
+        try:
+            # packs the rules: a flow NLRI is at most 4095 bytes (RFC 8955 4.1). It was only found out when the
+            # route was indexed or sent, with a Notify
+            route.nlri.index()
+        except Notify as exc:
+            return self.error.set(f'flow route is too large to be encoded: {exc}')
         return True
 
     def _check(self, change: Any) -> bool:
